@@ -317,5 +317,5 @@ def run(rep, tier, seed, only=None):
         items.append(("feature", None))
     if sub("seeded"):
         items += [("seeded", (seed * 31 + s, 30 if thorough else 8, 14 if thorough else 10, 6 if thorough else 5))
-                  for s in range(48 if thorough else 16)]
+                  for s in range(96 if thorough else 48)]
     rep.pmap(unit, items)
